@@ -8,6 +8,7 @@ import (
 	"strings"
 	"sync"
 	"testing"
+	"time"
 
 	"github.com/AdguardTeam/urlfilter"
 	"github.com/AdguardTeam/urlfilter/rules"
@@ -77,7 +78,41 @@ func sortedList(xs []string) []string {
 	return out
 }
 
+// c12Deadline: parsing a line or answering a request takes microseconds; a
+// case that has not finished after this long does not terminate.
+const c12Deadline = 20 * time.Second
+
+// checkC12 runs the case under a watchdog ("terminates" is part of the property).
 func checkC12(c c12Case, rec *Rec) *Violation {
+	type outcome struct {
+		v   *Violation
+		pan any
+	}
+	done := make(chan outcome, 1)
+	go func() {
+		defer func() {
+			if e := recover(); e != nil {
+				done <- outcome{pan: e}
+			}
+		}()
+		done <- outcome{v: checkC12Inner(c, rec)}
+	}()
+	select {
+	case o := <-done:
+		if o.pan != nil {
+			panic(o.pan) // reported by the caller like any other panic
+		}
+		return o.v
+	case <-time.After(c12Deadline):
+		what := "inert-line case"
+		if c.Rules == nil {
+			what = fmt.Sprintf("line %q", clipStr(string(c.Line)))
+		}
+		return viol("C12", "C12:does-not-terminate", "%s: parsing, matching or engine construction did not finish within %v", what, c12Deadline)
+	}
+}
+
+func checkC12Inner(c c12Case, rec *Rec) *Violation {
 	const id = "C12"
 	if c.Rules == nil {
 		return checkC12Line(c, rec)
@@ -386,6 +421,24 @@ func genC12Inert(t *rapid.T) c12Case {
 		// the mark is content of the first line like any other byte; nothing else about the list changes
 		c.Rules[0] = "\xef\xbb\xbf" + c.Rules[0]
 	}
+	nearBuffer := chance(t, "rule-near-buffer-size", 6)
+	if nearBuffer {
+		// a rule line whose length is the size of the list reader's block, give or take a byte or two:
+		// whether it still fits depends on the line ending
+		L := pick(t, "near-buffer-len", []int{4093, 4094, 4095, 4096, 4097})
+		s := "ab$domain=example.org"
+		for i := 0; len(s)+60 < L; i++ {
+			s += fmt.Sprintf("|site%04d.example", i)
+		}
+		for L-len(s) > 40 {
+			s += "|pad.example"
+		}
+		if k := L - len(s) - 1 - len(".example"); k >= 1 {
+			s += "|" + strings.Repeat("p", k) + ".example"
+		}
+		c.Rules = append(c.Rules, s)
+		n = len(c.Rules)
+	}
 	shortLast := chance(t, "short-rule-last", 3)
 	if shortLast {
 		// the shortest rules there are, as the last line
@@ -407,6 +460,11 @@ func genC12Inert(t *rapid.T) c12Case {
 	c.CRLF = chance(t, "crlf", 3)
 	c.File = chance(t, "file-backed", 3)
 	c.NoEOL = chance(t, "no-final-newline", 3)
+	if nearBuffer {
+		c.File = c.File || chance(t, "near-buffer-file", 2)
+		c.CRLF = c.CRLF || chance(t, "near-buffer-crlf", 2)
+		c.Reqs = append(c.Reqs, Q{URL: "http://x.com/ab", Src: "http://example.org/", Typ: "script"}, Q{URL: "http://x.com/ab", Src: "http://site0003.example/", Typ: "image"})
+	}
 	for i := rapid.IntRange(3, 8).Draw(t, "nreq"); i > 0; i-- {
 		if len(models) > 0 {
 			c.Reqs = append(c.Reqs, genQNear(t, models[rapid.IntRange(0, len(models)-1).Draw(t, "for")]))
